@@ -280,7 +280,7 @@ def run(ctx):
         for fct in s_.facts:
             if "'aliases'" in fct or ".rsplit('.', 1)[-1] ==" in fct:
                 tree_ = ast.parse(fct, mode="eval").body
-                parts = {norm(v) for v in (tree_.values if isinstance(tree_, ast.BoolOp) and isinstance(tree_.op, ast.Or) else [tree_])}
+                parts = {norm(v).replace("get('aliases', ())", "get('aliases', [])") for v in (tree_.values if isinstance(tree_, ast.BoolOp) and isinstance(tree_.op, ast.Or) else [tree_])}
                 # symmetric spelling of the equality
                 parts = {x if x in want_alias else (" == ".join(reversed(x.split(" == "))) if " == " in x and " == ".join(reversed(x.split(" == "))) in want_alias else x) for x in parts}
                 found = parts if found is None else (found | parts)
